@@ -40,7 +40,8 @@ static void finish_time_stat(struct report_time_stat *ts, unsigned long call)
 	variance = (ts->sum_sq + ts->rec_sq) / call;
 	variance -= ts->avg * ts->avg;
 
-	ts->stdv = sqrt(variance / call) * 100 / ts->avg;
+	/* no deviation to speak of when the mean is zero (0/0 would print "-nan%") */
+	ts->stdv = ts->avg ? sqrt(variance / call) * 100 / ts->avg : 0;
 }
 
 static struct uftrace_report_node *find_or_create_node(struct rb_root *root, const char *name,
